@@ -130,10 +130,11 @@ func init() {
 			"A5 setVar/setPlace dispatch tables injective and complete (every specialisation with the family signature is wired) and each closure applies exactly the Go operator of its arm; A6 right operand from the value parameter, left from the place; A7 constant shortcuts are identities for every category that reaches them (including delegations such as x /= -1 -> x *= -1 and compile-time rejections); A7s an identity shortcut on a map element still evaluates map and key once and writes the element back (found F41); A6m in every statement closure of the place compilers the container is evaluated before the key and both before the right-hand side; M1 no read of a map element through reflect uses the result of MapIndex without an IsValid test (found F40); A8 power-of-two division shapes; " +
 			"S1 every statement closure returns Code[IP] of the environment it returns after exactly one advance of IP (or Code[t] after IP = t) on every path; E2 every captured operand closure (place, map key, right-hand side) is evaluated at most once per path; " +
 			"P1-P4 two-phase multiple assignment: left operands, then right-hand expressions (copied with dup), then stores, map keys copied, two-place fast path only without map keys; P5 a setter that is nil for the blank identifier is called only under a nil test (found F51); I1 ++/-- compile as += / -= the constant one. " +
-			"Not decided: which specialisation is selected for a given program (Place construction), map-element read-modify-write inside reflect, exotic evaluation-order mixes beyond the call-order rule.",
+			"P1o within the two-target closures left operands, right-hand expressions and stores each run in target order (a swapped pair of stores breaks `*p, x = 1, 2` when p points to x). Not decided: which specialisation is selected for a given program (Place construction), map-element read-modify-write inside reflect, exotic evaluation-order mixes beyond the call-order rule.",
 		Assumptions: []string{"Go operator semantics on basic types", "computation at the category's widest type followed by a truncating store equals computation at the narrow type (two's complement)", "reflect Set*/MapIndex/SetMapIndex as documented"},
 		Rules:       []func(*Ctx){c02Rules},
 		Mutants: []Mutant{
+			{Name: "two-target-stores-right-to-left", File: "fast/assignment.go", Old: "\t\t\t\tassign[0].setplace(obj0, obj0, val0)\n\t\t\t\tassign[1].setvar(env, val1)", New: "\t\t\t\tassign[1].setvar(env, val1)\n\t\t\t\tassign[0].setplace(obj0, obj0, val0)"},
 			{Name: "map-store-evaluates-right-hand-side-first", File: "fast/place_set.go", Old: "\t\t\tobj := lhs(env)\n\t\t\tkey := mapkey(env)\n\t\t\tval := rhs(env)\n\t\t\tif val.Type() != rt {\n\t\t\t\tval = convert(val, rt)\n\t\t\t}\n", New: "\t\t\tval := rhs(env)\n\t\t\tif val.Type() != rt {\n\t\t\t\tval = convert(val, rt)\n\t\t\t}\n\t\t\tobj := lhs(env)\n\t\t\tkey := mapkey(env)\n"},
 			{Name: "varquo-allones-delegates-to-mul", File: "fast/var_ops.go", Old: "} else if isLiteralNumber(val, -1) && reflect.Category(va.Type.Kind()) != xr.Uint {", New: "} else if isLiteralNumber(val, -1) {"},
 			{Name: "identity-shortcut-skips-map-store", File: "fast/assignment.go", Old: "\t\t\tobj.SetMapIndex(key, val)\n", New: ""},
@@ -173,7 +174,7 @@ func init() {
 			"FE1 freeEnv returns early for UsedByClosure frames and drops Ints of IntAddressTaken frames before pooling; O1/O2 Run.Pool, Run.PoolSize and Env.UsedByClosure are written only by the allocator / MarkUsedByClosure; " +
 			"U sibling uniformity and A3 depth of the fetched function variable and A2 accessor category over the call*ret*/func*ret* specialisations (argument i stored to slot i with the storage of its kind, result read from the result slot). " +
 			"V2 the call closures that cache the converted function of a file-level symbol, keyed on the identity of the xreflect.Value in its slot, obtain the symbol through a function that excludes assignable bindings (found F39: a file-level `var f func()` assigned again kept calling the old function); R2 `return` with several named results evaluates and detaches every expression before it sets any result (found F38: `return b, a`); H1 no statement or expression closure writes into a buffer that was allocated once by the enclosing compile function, or returns a value allocated there (recursion and goroutines would share it); N3 every result bind is declared with DeclVar0, which zeroes the slot at each entry (a function left by a recovered panic returns the slot as it is). " +
-			"Not decided: variadic packing, multiple results through reflect, recursion depth, that UsedByClosure is sufficient for every escape route (method values).",
+			"E5 under the test of Call.Ellipsis the function value is invoked through reflect CallSlice only, and never through CallSlice in the opposite branch (f(a, xs...) must not wrap xs again); V3 a memoised callee is refreshed under `remembered value != value just read` and records the value read; Z2 literals that pick argument closures by constant index pick each once. Not decided: variadic packing, multiple results through reflect, recursion depth, that UsedByClosure is sufficient for every escape route (method values).",
 		Assumptions: []string{"a frame is reachable after its call only through closures created in literals over it or through &Ints pointers", "reflect.MakeFunc / ValueOf retain the closure they are given"},
 		Rules: []func(*Ctx){func(c *Ctx) {
 			ruleMarkBeforeEscape(c, "fast", "M1-mark-before-escape")
@@ -190,6 +191,7 @@ func init() {
 			ruleDepth(c, "fast", c06Files, "A3-depth", "A4-storage")
 			ruleAccessorFiles(c, "fast", c06Files, "A2-accessor")
 			ruleCacheKeys(c, "V2-cache-keys")
+			ruleCacheRefreshGuard(c, "V3-cache-refresh")
 			ruleNoSharedRuntimeStorage(c, "H1-no-shared-storage")
 			ruleResultSlotsZeroed(c, "N3-result-slots-zeroed")
 			ruleReturnParallel(c, "R2-return-parallel")
@@ -200,6 +202,7 @@ func init() {
 			c.Floor("A3-depth", 150)
 		}},
 		Mutants: []Mutant{
+			{Name: "ellipsis-call-through-plain-call", File: "fast/call_ellipsis.go", Old: "\t\t\tretv := callslicexr(funv, argv)\n\t\t\treturn retv[0], retv", New: "\t\t\tretv := callxr(funv, argv)\n\t\t\treturn retv[0], retv", Nth: 4},
 			{Name: "unnamed-result-slot-not-zeroed", File: "fast/function.go", Old: "\t\tbind := c.DeclVar0(name, t.Out(i), nil)\n\t\tbinds[i] = bind", New: "\t\tbind := c.NewBind(name, VarBind, t.Out(i))\n\t\tbinds[i] = bind"},
 			{Name: "argument-buffer-hoisted-out-of-the-call-closure", File: "fast/builtin.go", Old: "\t\t\t\tret = func(env *Env) xr.Value {\n\t\t\t\t\targs := make([]xr.Value, len(argfunsX1))\n\t\t\t\t\tfor i, argfun := range argfunsX1 {\n\t\t\t\t\t\targs[i] = argfun(env)\n\t\t\t\t\t}\n\t\t\t\t\treturn xr.Append(args[0], args[1:]...)", New: "\t\t\t\targs := make([]xr.Value, len(argfunsX1))\n\t\t\t\tret = func(env *Env) xr.Value {\n\t\t\t\t\tfor i, argfun := range argfunsX1 {\n\t\t\t\t\t\targs[i] = argfun(env)\n\t\t\t\t\t}\n\t\t\t\t\treturn xr.Append(args[0], args[1:]...)"},
 			{Name: "mark-dropped-uint8-bool", File: "fast/func1ret1.go", Old: "\n\t\t\t\tenv.MarkUsedByClosure()\n\t\t\t\treturn xr.ValueOf(func(arg0 uint8,\n\n\t\t\t\t) (ret0 bool,", New: "\n\t\t\t\treturn xr.ValueOf(func(arg0 uint8,\n\n\t\t\t\t) (ret0 bool,", Canary: true},
@@ -220,13 +223,15 @@ func init() {
 		Title: "REPL-style evaluation, one top-level statement at a time, matches in-order Go",
 		Explanation: "Decided (the stable-address clause: a pointer obtained in one evaluation keeps aliasing its variable in every later one): O3 the slot array Env.Ints is (re)assigned only by newEnv, NewEnv, newEnv4Func, freeEnv and prepareEnv; PE1 prepareEnv installs a new array only after the IntAddressTaken error check and publishes cap(Ints) as IntBindMax when an address was taken; " +
 			"NB1 a variable becomes an unboxed IntBind only under IntBindMax == 0 || the slots it needs (two for complex128) still fit below IntBindMax; PE3 when prepareEnv grows a slot array the new array is made with the required length before the old contents are copied; PE2 the limit is published before every compilation, not only before every run (found F44: the declaration that followed `p := &x` at slot 1024, or a complex128 at slot 1023, broke the interpreter for good); Q1 every &E.Ints[i] that leaves its expression (all of package fast, including imported interpreted packages) is preceded by E.IntAddressTaken = true on the same frame; A4b every function that addresses a variable's unboxed slot is entered only for IntBind variables (the variable being a parameter, or a local obtained from one of the functions that resolve a user expression to a place: rangeVars, Place, Resolve, ... — that clause found F34); V0 no &E.Vals[i] exists (boxed cells are addressed through reflect, so Vals may grow); V1 assignment code stores into a boxed cell and never replaces it; A3/A4/A5/A6 on the variable-assignment specialisations (the boxed arms are reached mostly by REPL histories). " +
-			"Not decided: that each evaluation sees the effects of all earlier ones (run-time state), the two-slot complex128 arithmetic on IntBindMax.",
+			"NB2 a redeclared name reuses its old slot index only when the conditions on the way exclude the case old kind is not complex128 and new kind is complex128 (boolean evaluation of the guards, other sub-conditions left free); V3 a callee memoised from a file-level slot is refreshed when the slot holds another value (a function redefined in a later evaluation is seen by earlier callers). Not decided: that each evaluation sees the effects of all earlier ones (run-time state), the two-slot complex128 arithmetic on IntBindMax.",
 		Assumptions: []string{"reflect.Value.Addr() of a boxed cell does not point into Env.Vals", "Go's append/make semantics"},
 		Rules: []func(*Ctx){func(c *Ctx) {
 			ruleOwnership(c, "O3-ints-owner", "fast", "Env", "Ints", []string{"fast.newEnv", "fast.NewEnv", "fast.newEnv4Func", "fast.Env.freeEnv", "fast.Interp.prepareEnv", "*#elem"}, "only the allocator and the REPL preparation may move the slot array")
 			ruleOwnership(c, "O3-intaddr-owner", "fast", "Env", "IntAddressTaken", []string{"fast.Var.Address", "fast.Env.freeEnv", "fast.Import.intPlace"}, "set where an interior pointer is handed out, cleared only when the array is dropped")
 			rulePrepareEnv(c)
 			ruleNewBindMax(c)
+			ruleBindReuseSlots(c, "NB2-reuse-slots")
+			ruleCacheRefreshGuard(c, "V3-cache-refresh")
 			rulePrepareBeforeCompile(c)
 			ruleGrowKeepsContents(c, "PE3-grow-keeps-contents")
 			ruleInteriorPointers(c, "fast", "Q1-interior-pointer")
@@ -242,6 +247,8 @@ func init() {
 			c.Floor("A4-ints-guard", 18)
 		}},
 		Mutants: []Mutant{
+			{Name: "redeclared-complex-keeps-one-slot", File: "fast/declaration.go", Old: "if bind.Type.Kind() == r.Complex128 || t.Kind() != r.Complex128 {", New: "if bind.Type.Kind() != r.Complex128 || t.Kind() == r.Complex128 {"},
+			{Name: "callee-memo-never-refreshed", File: "fast/call0ret1.go", Old: "\t\t\t\t\t\tfunv := env.FileEnv.Vals[funindex]\n\t\t\t\t\t\tif cachedfunv != funv {\n\t\t\t\t\t\t\tcachedfun = funv.Interface().(func() string)", New: "\t\t\t\t\t\tfunv := env.FileEnv.Vals[funindex]\n\t\t\t\t\t\tif cachedfun == nil {\n\t\t\t\t\t\t\tcachedfun = funv.Interface().(func() string)"},
 			{Name: "grown-ints-array-made-empty", File: "fast/repl.go", Old: "binds := make([]uint64, min, capacity)", New: "binds := make([]uint64, 0, capacity)"},
 			{Name: "range-string-direct-store-any-class", File: "fast/range.go", Old: "direct := placeval != nil && placeval.IsVar() && placeval.Var.Desc.Class() == IntBind", New: "direct := placeval != nil && placeval.IsVar()"},
 			{Name: "import-mark-dropped", File: "fast/import.go", Old: "\timpenv.IntAddressTaken = true\n", New: "", Canary: true},
@@ -625,7 +632,7 @@ func init() {
 			"J1 in jumpOut and every other depth-specialised jump the frame whose IP is set and whose code is indexed is the one the arm names; J2 break/continue/goto stop at the enclosing function, count the frames to leave after each level and pass the count to jumpOut (D3: the compiler-chain walk advances one link per iteration); " +
 			"J3 every late-bound jump target (jump.Cond/Post/Break/..., LoopInfo.Break/Continue) is assigned a code position on every path to the end of its compile function; J4 Comp.Stmt has a case for every statement node of go/ast; U sibling uniformity of the kind-specialised switch / range / select closures (including the arms that are alone in their category, compared modulo storage class); A3 a statement closure that walks Outer links in a counted loop up to the frame of a variable (the count derived from the variable's Upn) accesses that variable's slot on the frame it reached, never on the current one (found F32 in rangeString); G1 the places a for-range statement assigns to (returned by rangeVars) are only tested and assigned with SetPlace(p, ASSIGN, ...), never read, updated in place or re-bound to the loop's own counter, and each assignment is emitted after jump.Start and after an exit test (a statement that can jump to jump.Break) on every path, a direct store being in the continuing branch of that test (found F29, F33); G2 each iteration of a range over a string decodes the first rune of s[offset:] with utf8.DecodeRuneInString and advances the offset by the width it returned; J2 also: the scope of the function body itself is searched for a break / goto target before the search stops (found F31; a continue target always has a scope of its own, clause continue-owner); J5 HasLabel's bisection is a membership test (slice[i] == key) and every ThisLabels slice was sorted before it was installed; S2 the closed-channel flag of a select receive is the recvOK result of reflect.Select kept in a slot of its own and read by both two-valued receive forms (found F30); S3 each select clause compiler ends with the jump to the select's Break target in the same frame; S4 expression switch: the direct-dispatch table (GotoMap) receives a constant only while every earlier case expression was constant (monotone flag, single writer), the table builders read GotoMap and never ConstMap, the jump into default is emitted after all clauses and a default reached in sequence skips its body, every clause header is exactly one statement slot and fallthrough advances by that slot plus one, and a case body ends with fallthrough exactly when its last statement is one, else with the jump to Break in the same frame. " +
 			"Y8 a local that is assigned only under a condition (the dynamic type of a possibly nil tag) is used only under a correlated test (found F52). " +
-			"Not decided: the sequence of executed statements as such (switch dispatch optimisations, fallthrough, range and select semantics).",
+			"TR1 the code dropped for a constant condition is the branch that cannot run (the stretch since the recorded label compiles the body for constant false, the else branch for constant true); Z2 a literal that picks closures out of one slice by constant index picks each once. Not decided: the sequence of executed statements as such (switch dispatch optimisations, fallthrough, range and select semantics).",
 		Assumptions: []string{"the executor runs the statement returned by the previous one (C13 rules)"},
 		Rules: []func(*Ctx){func(c *Ctx) {
 			ruleStmtProtocol(c, "fast", nil, "S1-stmt-protocol")
@@ -645,12 +652,15 @@ func init() {
 			ruleRangeStringDecode(c, "G2-range-string-decode")
 			ruleConditionalInit(c, "Y8-conditional-init", "fast", nil)
 			ruleDistinctPickedElements(c, "Z2-distinct-picked-closures", "fast")
+			ruleDeadBranchTruncate(c, "TR1-dead-branch-truncate")
 			c.Floor("G1-range-places", 8)
 			ruleUniformity(c, "fast", []string{"switch.go", "switch2.go", "switch_type.go", "range.go", "range_map.go", "select.go", "statement.go"}, "U-uniform")
 			c.Floor("S1-stmt-protocol", 2300)
 			c.Floor("U-uniform", 25)
 		}},
 		Mutants: []Mutant{
+			{Name: "constant-true-if-drops-taken-branch", File: "fast/statement.go", Old: "\t\t\tc.Code.Truncate(jump.Else)", New: "\t\t\tc.Code.Truncate(jump.Then)"},
+			{Name: "two-case-list-compares-first-twice", File: "fast/switch.go", Old: "\t\t\tcmpfuns[0],\n\t\t\tcmpfuns[1],\n\t\t}", New: "\t\t\tcmpfuns[0],\n\t\t\tcmpfuns[0],\n\t\t}"},
 			{Name: "nil-tag-type-dereferenced", File: "fast/switch_type.go", Old: "if vt == nil || rtype.Kind() != r.Interface || !vt.Implements(rtype) {", New: "if rtype.Kind() != r.Interface || !vt.Implements(rtype) {"},
 			{Name: "jumpout-depth1-stays-in-frame", File: "fast/statement.go", Old: "\t\tstmt = func(env *Env) (Stmt, *Env) {\n\t\t\tenv = env.Outer\n\t\t\tip := *ip\n", New: "\t\tstmt = func(env *Env) (Stmt, *Env) {\n\t\t\tip := *ip\n", Canary: true},
 			{Name: "for-break-target-unset", File: "fast/statement.go", Old: "\tjump.Break = c.Code.Len()\n\n\tc = c.popEnvIfLocalBinds(initLocals, &initBinds, node.Init)\n}\n\n// Go compiles", New: "\n\tc = c.popEnvIfLocalBinds(initLocals, &initBinds, node.Init)\n}\n\n// Go compiles", Canary: true},
